@@ -12,6 +12,10 @@ E3T_NOTE = ("Trusted: rustc/std, the baton scheduler rt/vsched (self-tested on e
             "and the vstd shim that makes the unmodified expansion's ::std::thread resolve to it; sequential consistency at visible operations "
             "(the expansion is safe Rust whose threads communicate only through spawn arguments and join results). Bounded by the enumerated programs.")
 
+E3A_NOTE = ("Trusted: rustc/std, futures 0.3.26 (explored, not modelled), the deterministic executor rt/vexec and the tokio shim rt/vtokio "
+            "(spawn/JoinHandle/JoinError semantics the expansion relies on); explicit-state pruning on a canonical state whose adequacy is cross-checked "
+            "against the unpruned exploration of the small programs on every run. Real tokio scheduling is covered only by the free-running E2 runs.")
+
 CLAIMED = {
     "C01": dict(
         category="exploration",
@@ -26,8 +30,8 @@ CLAIMED = {
         technique="stateless model checking of the generated code: exhaustive enumeration of all orders of visible operations under a controlled (baton) thread scheduler, per depth profile",
         text="For every depth profile and thread-spawning macro the real expansion is executed under every order of visible operations (callbacks, operands, captures); in every execution no step-(k+1) event precedes a step-k event and every branch continues from its own value. Sequential macros are decided by exact trace equality in the C04-C06 families.",
         design_ref="DESIGN.md §4 C03, §2.5",
-        note=E3T_NOTE,
-        engine="E3-T",
+        note=E3T_NOTE + " " + E3A_NOTE,
+        engine="E3-T+E3-A",
     ),
     "C04": dict(
         category="exploration",
@@ -43,7 +47,7 @@ CLAIMED = {
         text="Every subset of (branch, step) positions is made to fail in every profile program of the six try macros (Result and Option); the macro's value must be the reference's (lowest-numbered failing branch of the earliest failing step, payload unchanged; async: any branch failing in that step). For try_join_spawn!/try_spawn! small profiles are additionally run under every order of visible operations.",
         design_ref="DESIGN.md §4 C05",
         note=E2_NOTE + " " + E3T_NOTE,
-        engine="E2+E3-T",
+        engine="E2+E3-T+E3-A",
     ),
     "C06": dict(
         category="fault_enumeration",
@@ -51,7 +55,7 @@ CLAIMED = {
         text="Same programs and rows as C05; every step >= 1 carries a block capture, an error-side callback and a non-closure operand, so anything evaluated after a failed step (or a handler call) is visible in the trace, as is a failing step that was not run to its end in sync/spawn kinds.",
         design_ref="DESIGN.md §4 C06",
         note=E2_NOTE + " " + E3T_NOTE,
-        engine="E2+E3-T",
+        engine="E2+E3-T+E3-A",
     ),
     "C08": dict(
         category="model_checking",
@@ -61,13 +65,21 @@ CLAIMED = {
         note=E3T_NOTE,
         engine="E3-T",
     ),
+    "C09": dict(
+        category="model_checking",
+        technique="explicit-state model checking of the generated futures on a deterministic executor: all decision sequences (polls, releases of pending points before/after arrival, spurious polls), progress invariant in every quiescent state",
+        text="The unmodified expansion of the six async macros runs on a deterministic executor that owns every pending point (gate futures) and every task (tokio::spawn shim); all decision sequences are enumerated. Construction must evaluate nothing; in every quiescent state each branch of the current step has either progressed or registered a waker at its pending point; every maximal execution completes with the reference's result.",
+        design_ref="DESIGN.md §4 C09, §2.6",
+        note=E3A_NOTE,
+        engine="E3-A",
+    ),
     "C18": dict(
         category="fault_enumeration",
         technique="exhaustive fault injection (every single panic position, crossed with failure subsets) x all schedules under the controlled thread scheduler",
         text="A panic is injected at every single (branch, step) position (for small try programs on top of every failure subset) and the real expansion is run under every order of visible operations: the panic must surface on the caller, nothing of a later step may run, no deadlock.",
         design_ref="DESIGN.md §4 C18",
-        note=E3T_NOTE + " Async/task-spawning variants are added with the E3-A engine.",
-        engine="E3-T",
+        note=E3T_NOTE + " " + E3A_NOTE,
+        engine="E3-T+E3-A",
     ),
 }
 
@@ -110,6 +122,8 @@ def main():
              "kind_free_text": "compile-and-run differential explorer: exhaustively enumerated DSL programs x input tables, real macros vs in-binary reference"},
             {"name": "E3-T", "path": "vlib/e3t.py + rt/vsched + rt/vstd", "serves_properties": sorted(k for k, v in CLAIMED.items() if "E3-T" in v["engine"]),
              "kind_free_text": "stateless model checker for the thread-spawning expansions: baton scheduler over real OS threads, DFS over all orders of visible operations, re-execution from choice prefixes"},
+            {"name": "E3-A", "path": "vlib/e3a.py + rt/vexec + rt/vtokio", "serves_properties": sorted(k for k, v in CLAIMED.items() if "E3-A" in v["engine"]),
+             "kind_free_text": "explicit-state model checker for the async expansions: deterministic executor, harness-owned gate futures and tokio::spawn shim, DFS over all decision sequences with canonical-state pruning (cross-checked unpruned)"},
         ],
         "checks": checks,
         "notes": "Exit codes: 0 held on everything explored; 1 violation (VIOLATION line); 2 machinery error (never a verdict). VERIF_REPO overrides /repo. See DESIGN.md.",
